@@ -1,6 +1,7 @@
 """Producing traces of real runs: shipped scenarios and adversarially driven generated worlds."""
 from __future__ import annotations
 
+import json
 import random
 import traceback
 from pathlib import Path
@@ -279,3 +280,55 @@ def run_model_schedule(spec: Dict[str, Any], work: Path, trace_path: Path, run_i
     rp = crank_traced(rp, spec["steps"], tr, {"builtin": False, "scenario": run_id, "mix": "model"})
     tr.close()
     return rp, tr
+
+
+def dispatcher_records(sim, env, sink, run_id: str, counter: List[int]) -> None:
+    """call the REAL Dispatcher once per fleet on this state and write one record per call: eligibility facts computed
+    independently of the dispatcher, the h3 grid-distance matrix, and the pairs it returned"""
+    import h3
+
+    from nrel.hive.dispatcher.instruction_generator.dispatcher import Dispatcher
+
+    cfg = env.config.dispatcher
+    fleets = sorted(env.fleet_ids) if len(env.fleet_ids) > 0 else [""]
+    vehicles = list(sim.get_vehicles())
+    requests = list(sim.get_requests())
+    if len(vehicles) > 8 or len(requests) > 9:
+        return
+    for f in fleets:
+        env_f = env._replace(fleet_ids=frozenset([f]) if f else frozenset())
+        _, instrs = Dispatcher(cfg).generate_instructions(sim, env_f)
+        veh = []
+        for v in vehicles:
+            mech = env.mechatronics.get(v.mechatronics_id)
+            rng_km = mech.range_remaining_km(v)
+            act = type(v.vehicle_state).__name__
+            ok = rng_km > cfg.matching_range_km_threshold and not (act == "ChargingBase" and rng_km < cfg.base_charging_range_km_threshold)
+            veh.append({"id": v.id, "act": act, "dispatchable": act.lower() in cfg.valid_dispatch_states,
+                        "avail": bool(v.driver_state.available), "range_ok": bool(ok),
+                        "member": (not f) or (f in v.membership.memberships), "public": len(v.membership.memberships) == 0})
+        req = [{"id": r.id, "assigned": r.dispatched_vehicle is not None,
+                "grants": (not f) or r.membership.public or (f in r.membership.memberships)} for r in requests]
+        dist = [[int(h3.h3_distance(v.geoid, r.geoid)) for r in requests] for v in vehicles]
+        counter[0] += 1
+        sink.write(json.dumps({"id": f"{run_id}#{counter[0]}", "fleet": f, "time": int(sim.sim_time), "veh": veh, "req": req,
+                               "dist": dist, "pairs": [[i.vehicle_id, i.request_id] for i in instrs]}, separators=(",", ":")) + "\n")
+
+
+def run_match(seed: int, work: Path, out_path: Path, steps: int = 6, focus: str = "match") -> Dict[str, Any]:
+    """a generated world stepped with the built-in generators; before every step the dispatcher is interrogated"""
+    from nrel.hive.app import hive_cosim
+
+    rng = random.Random(seed)
+    w = adv.gen_world(rng, n_steps=max(steps, 10), focus=focus)
+    scen = world.write_world(work / f"mworld{seed}", w)
+    rp = world.load(scen, work / "out", suffix=f"m{seed}")
+    if w.get("preload"):
+        rp = preload_requests(rp, w["preload"])
+    counter = [0]
+    with out_path.open("w") as sink:
+        for k in range(steps):
+            dispatcher_records(rp.s, rp.e, sink, f"match{seed}", counter)
+            rp = hive_cosim.crank(rp, 1).runner_payload
+    return {"records": counter[0], "vehicles": len(w["vehicles"]), "requests": len(w.get("preload", [])) + len(w["requests"]),
+            "fleets": bool(w.get("fleets"))}
